@@ -9,5 +9,8 @@ CONSTANTS
   Loss = TRUE
   Dup = TRUE
   Maxes = {1}
+  Export = FALSE
+  Depth = 0
+CONSTRAINT Bounded
 INVARIANTS OnlySent FragAtMostOnce
 CHECK_DEADLOCK FALSE
